@@ -24,6 +24,7 @@ package main
 import (
 	"fmt"
 	"os"
+	"strconv"
 	"time"
 
 	"verif/h"
@@ -51,7 +52,17 @@ func main() {
 		os.Exit(h.ExitHarnessError)
 	}
 
-	nLattice := run.N(96, 2400)
+	nLattice := run.N(96, 1800)
+	if v := os.Getenv("C05_STRESS_CANCEL"); v != "" {
+		n, _ := strconv.Atoi(v)
+		cancelStress(n)
+	}
+	if os.Getenv("C05_ONLY_SWEEP") != "" {
+		sw := sweepConfigs(true)
+		run.Parallel(len(sw), 8, func(c *h.Case) { sweepCase(c, sw[c.Idx]) })
+		closeServers()
+		run.Finish(1)
+	}
 	if os.Getenv("C05_ONLY_LATTICE") != "" {
 		run.Parallel(nLattice, 8, latticeCase)
 		closeServers()
